@@ -38,6 +38,16 @@ func (w poolW[T]) AllocsCycle(runs int) float64 {
 	})
 }
 
+// AllocsCyclePair measures a cycle in which two buffers are held together and put back one after the other.
+func (w poolW[T]) AllocsCyclePair(runs int) float64 {
+	return testing.AllocsPerRun(runs, func() {
+		a, b := w.p.Get(), w.p.Get()
+		a.AppendSample(1)
+		w.p.Put(a)
+		w.p.Put(b)
+	})
+}
+
 // AllocsCycleByValue measures the same cycle through a copy of the allocator value that is passed
 // to a function by value on every run (PoolAlloc returns a value; holding and passing it by value is
 // ordinary use).
